@@ -103,8 +103,23 @@ class C08(Prop):
         w = np.asarray(case["w"])
         M = np.asarray(Ap) * w[:, None]; e = (np.asarray(case["b"]) - np.asarray(bp)) * w
         x = np.asarray(out["X"], dtype=float)
-        g = gradient(case["opt"], x)
-        lam, ys, ss = dualcert.best_cert(g, x, sys["lb"], sys["ub"], np.zeros((0, sys["n"])), np.zeros(0), [(M, e, case["l2_eps"])])
+        # reference point (untrusted): an accurate optimum of the same programme; the duality bound is evaluated there
+        # (the gap at the returned point itself is first order in the solver error, the true excess second order)
+        import cvxpy as cp
+        x0 = x; ref = None
+        try:
+            z = cp.Variable(sys["n"]); o = case["opt"]
+            obj = {"l2": cp.sum_squares(z), "min": cp.sum(z), "max": -cp.sum(z), "var": cp.sum_squares(z - cp.sum(z) / sys["n"])}.get(o if isinstance(o, str) else "", None)
+            if obj is None:
+                obj = cp.sum_squares(z - np.asarray(o)) if isinstance(o, list) else cp.square(cp.sum(z) - o)
+            pr = cp.Problem(cp.Minimize(obj), [z >= sys["lb"], z <= sys["ub"], cp.norm2(M @ z - e) <= case["l2_eps"]])
+            pr.solve(solver="CLARABEL", tol_gap_abs=1e-11, tol_gap_rel=1e-11, tol_feas=1e-11)
+            if pr.status in ("optimal", "optimal_inaccurate") and z.value is not None:
+                x0 = np.clip(np.asarray(z.value, dtype=float), sys["lb"], sys["ub"]); ref = float(pr.value)
+        except Exception:  # noqa
+            pass
+        g = gradient(case["opt"], x0)
+        lam, ys, ss = dualcert.best_cert(g, x0, sys["lb"], sys["ub"], np.zeros((0, sys["n"])), np.zeros(0), [(M, e, case["l2_eps"])])
         # range of the objective over the (equality) solution polytope for the tolerance
         from scipy.optimize import linprog
         rng_obj = 1.0
@@ -115,7 +130,7 @@ class C08(Prop):
                 rng_obj = max(1.0, abs(objective(case["opt"], hi.x) - objective(case["opt"], lo.x)))
         except Exception:
             pass
-        case["_p"] = dict(sys=sys, M=M, e=e, cert=(lam, ys, ss), tol_obj=max(1e-6, 1e-4 * rng_obj), Ap=np.asarray(Ap), bp=np.asarray(bp))
+        case["_p"] = dict(x0=x0, ref=ref, sys=sys, M=M, e=e, cert=(lam, ys, ss), tol_obj=max(1e-6, 1e-4 * rng_obj), Ap=np.asarray(Ap), bp=np.asarray(bp))
         return case["_p"]
 
     def emit(self, case, out):
@@ -123,10 +138,10 @@ class C08(Prop):
             raise ValueError("raised %s: %s" % (out["error"], out.get("msg")))
         p = self.prep(case, out); sys = p["sys"]; m = sys["m"]
         tolf = case["l2_eps"] * 1e-3 + 1e-7
-        return "(Fits.GU (Fits.Build_ucase %s %s %s %s %s %s %s %s %s %s %s %s %s %s %s))" % (
+        return "(Fits.GU (Fits.Build_ucase %s %s %s %s %s %s %s %s %s %s %s %s %s %s %s %s))" % (
             kmat_lit(sys["K"], m), qm(sys["A"].tolist()), cnat(sys["n"]), qv(sys["lb"].tolist()), qv(sys["ub"].tolist()),
             qv(base_vec(sys["baseline"], m).tolist()), qv(case["w"]), qv(case["b"]), q(case["l2_eps"]), uopt_lit(case["opt"]),
-            qv(out["X"]), qv(out["Bpred"]), dualcert.cert_lit(*p["cert"]), q(p["tol_obj"]), q(tolf))
+            qv(out["X"]), qv(p["x0"].tolist()), qv(out["Bpred"]), dualcert.cert_lit(*p["cert"]), q(p["tol_obj"]), q(tolf))
 
     def spec_violation(self, case, out):
         if "error" in out:
@@ -141,16 +156,10 @@ class C08(Prop):
             return {"what": "weighted reproduction error %.3g exceeds l2_eps=%g" % (res, case["l2_eps"]), "class": "reproduction"}
         if np.max(np.abs(p["Ap"] @ x + p["bp"] - np.asarray(out["Bpred"]))) > 1e-8:
             return {"what": "B_pred is not the model capture of the returned intensities", "class": "prediction"}
-        z = cp.Variable(sys["n"])
         o = case["opt"]
-        obj = {"l2": cp.sum_squares(z), "min": cp.sum(z), "max": -cp.sum(z), "var": cp.sum_squares(z - cp.sum(z) / sys["n"])}.get(o if isinstance(o, str) else "", None)
-        if obj is None:
-            obj = cp.sum_squares(z - np.asarray(o)) if isinstance(o, list) else cp.square(cp.sum(z) - o)
-        pr = cp.Problem(cp.Minimize(obj), [z >= sys["lb"], z <= sys["ub"], cp.norm2(p["M"] @ z - p["e"]) <= case["l2_eps"]])
-        pr.solve(solver="CLARABEL", tol_gap_abs=1e-11, tol_gap_rel=1e-11, tol_feas=1e-11)
-        if pr.status in ("optimal", "optimal_inaccurate") and objective(o, x) > pr.value + p["tol_obj"] + 1e-7:
+        if p["ref"] is not None and objective(o, x) > p["ref"] + p["tol_obj"] + 1e-7:
             return {"what": "secondary objective %r: returned intensities give %.9g but %s (also in bounds, reproducing the target) gives %.9g" % (
-                o, objective(o, x), np.asarray(z.value).round(6).tolist(), pr.value), "class": "suboptimal:%s" % (o if isinstance(o, str) else ("vec" if isinstance(o, list) else "num"))}
+                o, objective(o, x), p["x0"].round(6).tolist(), p["ref"]), "class": "suboptimal:%s" % (o if isinstance(o, str) else ("vec" if isinstance(o, list) else "num"))}
         return None
 
     def nontrivial(self, case, out):
